@@ -21,6 +21,9 @@ const vfMetaBase = uintptr(0x30000000)
 // with precisely the kernel and early-boot frames marked.
 func vfInitLemma() {
 	ne := zzverif.Param("entries", 1, 2)
+	if vfMenu {
+		ne = 2
+	}
 	m := vfBuildMemMap(ne, 130)
 	bootMemAllocator = BootMemAllocator{}
 	bootMemAllocator.init(uintptr(m.kstart), uintptr(m.kend))
@@ -132,8 +135,14 @@ func vfInitLemma() {
 
 //verif:split 8
 //verif:concretize 6
-func Verif_C01_init_lemma() { vfInitLemma() }
+func Verif_C01_init_lemma() { vfMenu = false; vfInitLemma() }
+
+// The same lemma on two-entry maps drawn from a menu of concrete layouts (two pools whose bitmaps lie next to each
+// other in the metadata page: frame counts 40/64/65/100, adjacent or with a gap, kernel at the start of either).
+// The symbolic two-entry lemma is the thorough tier's; this one keeps two-pool layouts in the quick tier.
+//verif:split 8
+func Verif_C01_init_two_pools() { vfMenu = true; vfInitLemma() }
 
 //verif:split 8
 //verif:concretize 6
-func Verif_C03_init_lemma() { vfInitLemma() }
+func Verif_C03_init_lemma() { vfMenu = false; vfInitLemma() }
